@@ -9,7 +9,8 @@ from vlib import hexs, unhexs, parse_range
 
 ASSUMPTIONS = [
     "the model covers the reader's own state (the header-row option); the zip crate's cursor and caches are runtime state outside the model and are only sampled by this run",
-    "load_tables + table_by_name, and load_merged_regions + merged_regions_by_sheet, count as one read call each",
+    "in the random and pairwise histories load_tables + table_by_name, and load_merged_regions + merged_regions_by_sheet, count as one read call each; the cache histories (ReaderCache model) separate loading from reading",
+    "a cache-reading call on a cache that was never loaded panics by documented contract (.expect): the model predicts it and it is not counted as a violation",
 ]
 HAS_REF = ("xlsx", "xlsb")
 
@@ -92,6 +93,95 @@ def pairwise(rng, fmt, names, tables, limit):
     rng.shuffle(pairs)
     return [[a, b] for a, b in pairs[:limit]]
 
+def cache_histories(ctx, books):
+    """xlsx only: histories over the raw cache operations (load / read separately) interleaved
+    with the other read calls; the extracted ReaderCache model says, per call, which kind of
+    answer is due (panic on an unloaded cache, the file's table, the file's answer under the option
+    in force); each due answer is resolved on a freshly opened reader."""
+    rng = ctx.rng
+    xb = [b for b in books if b[0] == "xlsx"]
+    if not xb:
+        return
+    probe = ctx.run_impl(["k%d\topen\txlsx\t%s\tloadmerges;loadtables" % (k, p) for k, (f, p, n, t) in enumerate(xb)])
+    hist = []
+    for k, (f, p, names, tables) in enumerate(xb):
+        a = (probe.get("k%d" % k) or "").split(";;")
+        if len(a) != 2 or not all(x.startswith("loaded:") for x in a):
+            continue
+        fm, ft = "m" + a[0][-1], "t" + a[1][-1]
+        pick = lambda: rng.choice(names) if names and rng.random() < 0.9 else hexs("nosheet")
+        tpick = lambda: rng.choice(tables) if tables and rng.random() < 0.8 else hexs("NoTable")
+        for _ in range(ctx.scale(4, 40)):
+            ops = []
+            for _ in range(rng.randrange(2, 11)):
+                r = rng.random()
+                if r < 0.12: ops.append("hdr " + rng.choice(["-", "0", "1", "2", "5"]))
+                elif r < 0.24: ops.append("loadmerges")
+                elif r < 0.34: ops.append("rawmerges")
+                elif r < 0.46: ops.append("rawmergesby " + pick())
+                elif r < 0.56: ops.append("loadtables")
+                elif r < 0.62: ops.append("rawtables")
+                elif r < 0.68: ops.append("rawtablesin " + pick())
+                elif r < 0.78: ops.append("rawtable " + tpick())
+                elif r < 0.88: ops.append("merges " + pick())
+                elif r < 0.94: ops.append("range " + pick())
+                else: ops.append(rng.choice(["formula " + pick(), "wsall", "meta", "mergesat 0"]))
+            hist.append((p, fm, ft, ops))
+    hl = ["c%d\topen\txlsx\t%s\t%s" % (k, p, ";".join(ops)) for k, (p, fm, ft, ops) in enumerate(hist)]
+    himpl = ctx.run_impl(hl)
+    hmodel = ctx.run_model(["c%d\treadercache\t%s\t%s\t%s" % (k, fm, ft, ";".join(ops)) for k, (p, fm, ft, ops) in enumerate(hist)])
+    need = {}
+    def ref_calls(sym, op):
+        if sym == "M": return "loadmerges;rawmerges"
+        if sym.startswith("MB:"): return "loadmerges;" + op
+        if sym == "TN": return "loadtables;rawtables"
+        if sym.startswith("TI:"): return "loadtables;" + op
+        if sym.startswith("TB:"): return "hdr %s;loadtables;%s" % ("-" if sym.split(":")[1] == "d" else sym.split(":")[1], op)
+        if sym.startswith("R:"): return "hdr %s;%s" % ("-" if sym[2:] == "d" else sym[2:], op)
+        return None
+    for k, (p, fm, ft, ops) in enumerate(hist):
+        syms = (hmodel.get("c%d" % k) or "").split(";")
+        if len(syms) != len(ops):
+            ctx.disagreements.append({"function": "ReaderCache state machine", "case": hl[k], "impl": "", "model": hmodel.get("c%d" % k)})
+            continue
+        for sym, op in zip(syms, ops):
+            rc = ref_calls(sym, op)
+            if rc:
+                need.setdefault((p, rc), "f%d" % len(need))
+    rimpl = ctx.run_impl(["%s\topen\txlsx\t%s\t%s" % (rid, p, rc) for (p, rc), rid in need.items()])
+    for k, (p, fm, ft, ops) in enumerate(hist):
+        syms = (hmodel.get("c%d" % k) or "").split(";")
+        if len(syms) != len(ops):
+            continue
+        ans = (himpl.get("c%d" % k) or "abort").split(";;")
+        case = hl[k].split("\t", 1)[1]
+        ctx.traces += 1
+        ctx.count("cache_history")
+        okall = True
+        for i, (sym, op) in enumerate(zip(syms, ops)):
+            ctx.count("kop:" + op.split(" ")[0])
+            if i >= len(ans):
+                ctx.violations.append({"case": case, "expected": "all calls complete", "actual": ";;".join(ans)[:300], "model": ";".join(syms),
+                                       "what": "history stopped at call %d (%s)" % (i, op)})
+                okall = False
+                break
+            if sym == "-":
+                continue
+            if sym in ("panic", "loaded:0", "loaded:1"):
+                exp = sym
+            else:
+                ref = (rimpl.get(need[(p, ref_calls(sym, op))]) or "abort").split(";;")
+                exp = ref[-1]
+            if ans[i] != exp:
+                okall = False
+                if (ans[i] == "panic") != (sym == "panic") or ans[i].startswith("loaded:") != sym.startswith("loaded:"):
+                    ctx.disagreements.append({"function": "xlsx cache state (ReaderCache.kstep)", "case": case, "impl": ans[i][:200], "model": sym})
+                ctx.violations.append({"case": case, "expected": exp[:300], "actual": ans[i][:300], "model": sym,
+                                       "what": "call %d (%s): a cache-reading or other call answers differently after this history than the file's own answer (fresh reader)" % (i, op)})
+                break
+        if okall and len(ops) >= 3:
+            ctx.nontrivial("cache|" + case)
+
 def bad(a):
     return a is None or a.startswith(("openerr", "nofile")) or a in ("abort", "timeout", "panic", "alloc", "")
 
@@ -168,6 +258,8 @@ def run(ctx):
             if len(ops) >= 3:
                 ctx.nontrivial(case)
             ctx.sample({"history": case[:200]})
+    # 3b. the xlsx caches as reader state (ReaderCache.v)
+    cache_histories(ctx, books)
     # 4. access paths agree (default option) — checked on the implementation's answers
     al = []
     for k, (f, p, names, tables) in enumerate(books):
